@@ -15,8 +15,10 @@ from the epoch):
            history); a failing case records the units the process executed before it, and replay
            re-executes them.
 * hist     explicit-state part: every history up to a small depth of {bind propagator slot to an orbit
-           of TLE A/B/C, propagate a slot, copy a propagator, propagate through a fresh Orbit or an
-           Orbit copy}, for both propagators, each history executed from the pristine just-imported
+           of TLE A/B/C, propagate a slot (by Date or timedelta), copy a propagator, propagate through a
+           fresh Orbit or an Orbit copy, mutate a returned state in place (frame / form setter,
+           coordinate write)}, for both propagators; besides the value of the final state: no two calls
+           return the same object, no returned object changes afterwards; each history executed from the pristine just-imported
            library state (forked child of a worker that never executes library code itself).  The
            oracle is the reference state of the TLE the propagated orbit was built from, whatever
            happened before.
@@ -51,8 +53,8 @@ RULE = (
     "using an unbound slot pruned); the final propagation is compared; non-trivial = history of >= 2 operations"
 )
 BOUNDS = {
-    "quick": "product: all TLE tuples with <= 3 deviating fields x 7 date offsets (+ one timedelta call per TLE); hist: all histories of <= 4 operations (Sgp4, alphabet of 18 operations, 11 370 histories) / <= 4 operations (Sgp4Beta, 10 operations, 762 histories)",
-    "thorough": "product: <= 5 deviating fields; hist: <= 4 operations (Sgp4, 11 370 histories) / <= 6 (Sgp4Beta, 79 062 histories)",
+    "quick": "product: all TLE tuples with <= 3 deviating fields x 7 date offsets (+ one timedelta call per TLE); hist: all histories of <= 4 operations (Sgp4, alphabet of 18 operations, 11 370 histories) / <= 4 operations (Sgp4Beta, 10 operations, 762 histories); alias family (one propagator, prop by Date / timedelta, in-place mutation of returned states): <= 5 operations (3 800 histories per propagator)",
+    "thorough": "product: <= 5 deviating fields; hist: <= 4 operations (Sgp4, 11 370 histories) / <= 6 (Sgp4Beta, 79 062 histories); alias family <= 6 operations",
 }
 ASSUMPTIONS = [
     "oracle = sgp4.api.Satrec accelerated C++ build, WGS-72, opsmode 'i', driven by exact minutes since epoch",
@@ -141,10 +143,14 @@ def units(tier, seed):
     parts = 48 if tier == "quick" else 384
     u = [(CFG_PRODUCT, dict(part="product", bound=bound, j=(j + seed) % parts, parts=parts)) for j in range(parts)]
     depth = {"wrapper": 4, "native": 4} if tier == "quick" else {"wrapper": 4, "native": 6}
+    adepth = 5 if tier == "quick" else 6
     for kind in ("wrapper", "native"):
         hparts = 16 if tier == "quick" else 64
         for j in range(hparts):
-            u.append((CFG_HIST, dict(part="hist", kind=kind, depth=depth[kind], j=j, parts=hparts)))
+            u.append((CFG_HIST, dict(part="hist", kind=kind, family="multi", depth=depth[kind], j=j, parts=hparts)))
+        aparts = 8 if tier == "quick" else 32
+        for j in range(aparts):
+            u.append((CFG_HIST, dict(part="hist", kind=kind, family="alias", depth=adepth, j=j, parts=aparts)))
     return u
 
 
@@ -179,9 +185,9 @@ def run_unit(p, t):
             if j % p["parts"] == p["j"]:
                 check_tle(list(idx), t)
     else:
-        for j, ops in enumerate(enum_histories(p["kind"], p["depth"])):
+        for j, ops in enumerate(enum_histories(p["kind"], p["depth"], p["family"])):
             if j % p["parts"] == p["j"]:
-                check_history(dict(part="hist", kind=p["kind"], ops=ops), t, isolate=True)
+                check_history(dict(part="hist", kind=p["kind"], family=p["family"], ops=ops), t, isolate=True)
 
 
 def replay(case, t):
@@ -570,8 +576,7 @@ def exec_history(arg):
             if name in ("prop", "propt"):
                 last_result[op[1]] = alias[0] if alias else len(returned) - 1
     # a returned object never changes after being returned (other than by the caller's own mutation)
-    obs["changed"] = [dict(returned_by_op=n, was=list(snap), now=list(_snapshot(o))) for o, snap, n in returned[:-1] if _snapshot(o) != snap] \
-        if not obs["alias"] else []
+    obs["changed"] = [dict(returned_by_op=n, was=list(snap), now=list(_snapshot(o))) for o, snap, n in returned if _snapshot(o) != snap]
     return obs
 
 
@@ -681,7 +686,7 @@ def _history_once(case, t, isolate):
     t.ev((kind, tuple(map(tuple, ops))) if len(ops) >= 2 else None)
     # which element set does the final propagation belong to?
     last = ops[-1]
-    if last[0] == "prop":
+    if last[0] in ("prop", "propt"):
         x = None
         for op in ops[:-1]:
             if op[0] == "assign" and op[1] == last[1]:
@@ -704,9 +709,19 @@ def _history_once(case, t, isolate):
         t.fail(f"{lib}/history/{cls}/{last[0]}/raises", "every operation of a valid history succeeds", full_case, "state", obs["exc"],
                f"operation #{obs['at']} of {ops}")
         return
+    mutated = any(op[0] == "mut" for op in ops)
+    hcls = "after-in-place-mutation" if mutated else "no-mutation"
+    if obs["alias"]:
+        t.fail(f"{lib}/history/result-aliased/{hcls}", "every propagate call returns a new state object (value semantics of results)",
+               full_case, "a new object", f"the object returned by operation #{obs['alias'][0]}", f"history {ops}")
+    if obs["changed"]:
+        t.fail(f"{lib}/history/returned-state-changed/{hcls}", "a state object never changes after it has been returned", full_case,
+               [c["was"] for c in obs["changed"]], [c["now"] for c in obs["changed"]], f"history {ops}")
     if obs["frame"] != "TEME" or obs["form"] != "cartesian" or not obs["date_ok"]:
-        t.fail(f"{lib}/history/result-labels", "result is cartesian, TEME, at the requested date", full_case, ["TEME", "cartesian", True],
-               [obs["frame"], obs["form"], obs["date_ok"]])
+        t.fail(f"{lib}/history/result-labels/{hcls}", "result is cartesian, TEME, at the requested date", full_case, ["TEME", "cartesian", True],
+               [obs["frame"], obs["form"], obs["date_ok"]], f"history {ops}")
+        t.outcome(("hist", kind, cls, last[0], "labels"))
+        return
     bc = _bclass(ALPHA[3][H_TLES[kind][x][3]])
     ok = judge(kind, obs["x"], ref, H_DTS[last[2]] / 6e7, r_ref, v_ref, t, full_case, f"{lib}/history/{cls}/{last[0]}/vs-reference", bc,
                f"history {ops}; final propagation belongs to element set {x}")
